@@ -11,13 +11,25 @@ QUAL = "Circuit.add_subcircuit"
 layer1.SUMMARIES.update(layer2.SUMMARIES)
 
 
-def task(nconn, strip, literal_name=False, direct_wired=False):
+def symbolic_connections(ctx, values):
+    """an arbitrary dict  io name -> net name (values='str')  or  io name -> list of net names (values='list')"""
+    cdom = ctx.arr_nb("connections_keys")
+    if values == "str":
+        cval = z3.Function("connections_value", ctx.Name, ctx.Name)
+        return DictV(lambda y: z3.Select(cdom, y), lambda y: NameV(cval(y)))
+    cnt = z3.Function("connections_value_count", ctx.Name, ctx.Name, z3.IntSort())
+    k, x = ctx.fresh_name("ck"), ctx.fresh_name("cx")
+    ctx.axioms.append(z3.ForAll([k, x], cnt(k, x) >= 0))
+    return DictV(lambda y: z3.Select(cdom, y), lambda y: Coll(lambda t, y=y: cnt(y, t) > 0, cnt=lambda t, y=y: cnt(y, t), is_list=True), vkind="list")
+
+
+def task(nconn, strip, literal_name=False, direct_wired=False, values="str"):
     """direct_wired=False: body == contract for `nconn` explicit connections.
     direct_wired=True: C07 on the body with an arbitrary dict of connections (io name -> net name): `wired` on every
     exit and a rejected call leaves edges and registry as they were (callees used through their contracts)."""
     def run(ctx):
         fn, seg, sha = engine.find_function(F, QUAL)
-        label = f"{QUAL}[connections={'dict of str' if direct_wired else nconn},strip_io={strip},name={'literal' if literal_name else 'symbolic'}]"
+        label = f"{QUAL}[connections={('dict of ' + values) if direct_wired else nconn},strip_io={strip},name={'literal' if literal_name else 'symbolic'}]"
         T = ctx.tval
         H = {}
 
@@ -165,9 +177,7 @@ def task(nconn, strip, literal_name=False, direct_wired=False):
                 for b in range(a):
                     st0.pc.append(items[a][0] != items[b][0])
         if direct_wired:
-            cdom = ctx.arr_nb("connections_keys")
-            cval = z3.Function("connections_value", ctx.Name, ctx.Name)
-            conns = DictV(lambda y: z3.Select(cdom, y), lambda y: NameV(cval(y)))
+            conns = symbolic_connections(ctx, values)
         bind = {"self": me, "sc": sc, "name": name, "connections": conns, "strip_io": strip}
         body = verify.bind_and_run(ex, fn, st0, bind)
         if direct_wired:
@@ -178,7 +188,8 @@ def task(nconn, strip, literal_name=False, direct_wired=False):
                 g1, bb1 = o.st.g(me), o.st.bb(me)
                 what = "raise(" + str(o.exc) + ")" if o.kind == "raise" else "return"
                 for lab, f in [("graph-invariant", g1.wf(ctx)), ("typed", spec.typed(ctx, g1)), ("wiring", spec.wired_edges(ctx, g1)),
-                               ("registry", spec.registry_ok(ctx, g1, bb1, pin2, H["removed_before"] if o.kind == "raise" else H["removed_after"]))]:
+                               ("registry", spec.registry_ok(ctx, g1, bb1, pin2, H["removed_before"] if o.kind == "raise" else H["removed_after"])),
+                         ("pins-of-distinct-instances", spec.pins_distinct(ctx, bb1, pin2, H["removed_before"] if o.kind == "raise" else H["removed_after"]))]:
                     ctx.oblige(f"{label}/wired#{i}:{what}:{lab}", o.st.pc, f, "post")
                 if o.kind == "raise":
                     n_exc += 1
@@ -265,9 +276,11 @@ def task_add_blackbox():
 
 TASKS["layer2/add_blackbox[no connections]"] = task_add_blackbox()
 TASKS["C07/add_subcircuit[connections] on the body"] = task(0, True, direct_wired=True)
+TASKS["C07/add_subcircuit[list connections] on the body"] = task(0, True, direct_wired=True, values="list")
+TASKS["C07/add_subcircuit[connections,strip_io=False] on the body"] = task(0, False, direct_wired=True)
 
 
-def task_add_blackbox_connections():
+def task_add_blackbox_connections(values="str"):
     """C07 on the body of add_blackbox with an arbitrary dict of connections (pin name -> net name): `wired` holds on
     every exit, a rejected call leaves the edge set and the registry as they were.  Proved directly on the body (loop
     invariants carry the wiring clauses); callees (add, connect, remove) are used through their contracts."""
@@ -275,7 +288,7 @@ def task_add_blackbox_connections():
         import ast as _ast
         from pyvc.exec import BBVal
         fn, seg, sha = engine.find_function(F, QUAL_BB)
-        label = f"{QUAL_BB}[connections: dict of str]"
+        label = f"{QUAL_BB}[connections: dict of {values}]"
         T = ctx.tval
         H = {}
 
@@ -334,9 +347,7 @@ def task_add_blackbox_connections():
         nm = ex.name_term(name)
         unpin = ctx.template_inverse[("", ".", "")]
         H["ispin"] = lambda t: z3.And(t == pin2(nm, unpin(nm, t)), z3.Or(ctx.bb_in(b.term, unpin(nm, t)), ctx.bb_out(b.term, unpin(nm, t))))
-        cdom = ctx.arr_nb("connections_keys")
-        cval = z3.Function("connections_value", ctx.Name, ctx.Name)
-        conns = DictV(lambda y: z3.Select(cdom, y), lambda y: NameV(cval(y)))
+        conns = symbolic_connections(ctx, values)
         bind = {"self": me, "blackbox": b, "name": name, "connections": conns}
         outs = verify.bind_and_run(ex, fn, st0, bind)
         n_ret = n_exc = 0
@@ -345,7 +356,8 @@ def task_add_blackbox_connections():
             g1, bb1 = o.st.g(me), o.st.bb(me)
             what = "raise(" + str(o.exc) + ")" if o.kind == "raise" else "return"
             for lab, f in [("graph-invariant", g1.wf(ctx)), ("typed", spec.typed(ctx, g1)), ("wiring", spec.wired_edges(ctx, g1)),
-                           ("registry", spec.registry_ok(ctx, g1, bb1, pin2, lambda n: z3.Select(R, n)))]:
+                           ("registry", spec.registry_ok(ctx, g1, bb1, pin2, lambda n: z3.Select(R, n))),
+                         ("pins-of-distinct-instances", spec.pins_distinct(ctx, bb1, pin2, lambda n: z3.Select(R, n)))]:
                 ctx.oblige(f"{label}/wired#{i}:{what}:{lab}", o.st.pc, f, "post")
             if o.kind == "raise":
                 n_exc += 1
@@ -360,6 +372,7 @@ def task_add_blackbox_connections():
 
 
 TASKS["C07/add_blackbox[connections] on the body"] = task_add_blackbox_connections()
+TASKS["C07/add_blackbox[list connections] on the body"] = task_add_blackbox_connections("list")
 
 
 # ------------------------------------------------------------------------------------------------ fill_blackbox
@@ -369,9 +382,8 @@ QUAL_FILL = "Circuit.fill_blackbox"
 def task_fill_blackbox():
     """C07 on the body of fill_blackbox(name, c): `wired` on every exit; a rejected call leaves the circuit as it was.
     Pins of the filled instance may be absent (removed by the caller); a present one is a pin by the code's own check.
-    One assumption beyond `wired` (R2 below): a pin node of the filled instance is not at the same time a pin node of
-    another recorded instance unless the caller removed it (add_blackbox's freshness check guarantees this for nodes
-    that were never removed)."""
+    The auxiliary invariant of the induction (spec.pins_distinct: two recorded instances share a pin node only if the
+    caller removed it at some point) is part of the pre- and postcondition, like in every other C07 lemma."""
     def run(ctx):
         import ast as _ast
         from pyvc.exec import BBVal
@@ -455,7 +467,9 @@ def task_fill_blackbox():
         R, Rc = ctx.arr_nb("removed_by_caller"), ctx.arr_nb("removed_in_child")
         _b0 = z3.Select(bb0.val, nm)
         _own = lambda t: z3.And(t == pin2(nm, unpin2(nm, t)), z3.Or(ctx.bb_in(_b0, unpin2(nm, t)), ctx.bb_out(_b0, unpin2(nm, t))))
-        st0.pc.append(spec.wired(ctx, g0, bb0, pin2, lambda n: z3.Or(z3.Select(R, n), _own(n))))
+        st0.pc.append(z3.And(g0.wf(ctx), spec.typed(ctx, g0), spec.wired_edges(ctx, g0),
+                             spec.registry_ok(ctx, g0, bb0, pin2, lambda n: z3.Or(z3.Select(R, n), _own(n))),
+                             spec.pins_distinct(ctx, bb0, pin2, lambda n: z3.Select(R, n))))
         st0.pc.append(spec.wired(ctx, gc, bc, pin2, lambda n: z3.Select(Rc, n)))
         H["pre"], H["unpre"] = layer2.prefix_fn(ex, name)
         unpre = H["unpre"]
@@ -467,13 +481,6 @@ def task_fill_blackbox():
         waspin = lambda t: z3.And(img(t), io_b(unpre(t)), g0.node(pin(unpre(t))))
         back = lambda t: z3.If(waspin(t), pin(unpre(t)), t)
         N1 = lambda t: z3.Or(z3.And(g0.node(t), z3.Not(ispin(t))), waspin(t))
-        # R2: a pin node of the filled instance is not a pin node of another recorded instance
-        i_, p_ = ctx.fresh_name("ri"), ctx.fresh_name("rp")
-        st0.pc.append(z3.ForAll([i_, p_], z3.Implies(z3.And(z3.Select(bb0.dom, i_), i_ != nm,
-                                                          z3.Or(ctx.bb_in(z3.Select(bb0.val, i_), p_), ctx.bb_out(z3.Select(bb0.val, i_), p_)),
-                                                          z3.Not(z3.Select(R, pin2(i_, p_)))),
-                                                   z3.Not(ispin(pin2(i_, p_))))))
-
         def cut_after_update(ex_, st):
             g = st.g(me)
             t, u, v = ctx.fresh_name("ct"), ctx.fresh_name("cu"), ctx.fresh_name("cv")
@@ -498,7 +505,9 @@ def task_fill_blackbox():
             what = "raise(" + str(o.exc) + ")" if o.kind == "raise" else "return"
             for lab, f in [("graph-invariant", g1.wf(ctx)), ("typed", spec.typed(ctx, g1)), ("wiring", spec.wired_edges(ctx, g1)),
                            ("registry", spec.registry_ok(ctx, g1, bb1, pin2, (lambda n: z3.Or(z3.Select(R, n), _own(n))) if o.kind == "raise" else
-                                                         (lambda n: z3.Or(z3.Select(R, n), z3.And(n == pre(unpre(n)), z3.Select(Rc, unpre(n)))))))]:
+                                                         (lambda n: z3.Or(z3.Select(R, n), z3.And(n == pre(unpre(n)), z3.Select(Rc, unpre(n))))))),
+                           ("pins-of-distinct-instances", spec.pins_distinct(ctx, bb1, pin2, (lambda n: z3.Select(R, n)) if o.kind == "raise" else
+                                                                              (lambda n: z3.Or(z3.Select(R, n), z3.And(n == pre(unpre(n)), z3.Select(Rc, unpre(n)))))))]:
                 ctx.oblige(f"{label}/wired#{i}:{what}:{lab}", o.st.pc, f, "post")
             if o.kind == "raise":
                 n_exc += 1
